@@ -49,6 +49,10 @@ package signaling_rpc_client
 //@   requires r.tkr != nil
 //@   loop 1 invariant recv == nil
 //@   cs clientPeerTracker.bcast ensures self.recv == old(self.recv) && (recv != nil ==> recv == self.recv && !old(self.recvProcessed) && self.recvProcessed)
+// C21: a message is marked processed (which makes the main routine acknowledge it) only by the call
+// that takes it, and that call hands it to its caller - whatever else happens on the way out.
+//@   cs clientPeerTracker.bcast ensures self.recvProcessed != old(self.recvProcessed) ==> recv != nil
+//@   assert at exit: recv != nil ==> ret1 == nil && ret0 == recv
 //@   ensures ret1 == nil ==> authenticFrom(ret0, old(r.tkr).key)
 
 // The tracker's main routine (its loop section acks a processed message and then drops it) and Send
